@@ -29,17 +29,17 @@ P = {
   ref='6/C03'),
  'C04': dict(
   tech='scope-discipline dataflow (reaching definitions of the context handed to payloads / lambdas / writers)',
-  text='Necessary clauses only (scope discipline): each payload call runs in a child context created per invocation; lambdas evaluate in a child of their definition context; context-writing library functions write only into their own injected context; the collection overload of the member operator answers every element through the member-operator delegate; a named unpack makes no positional binding. Equality with a reference interpreter is NOT decided.',
+  text='Necessary clauses only (scope discipline): each payload call runs in a child context created per invocation; lambdas evaluate in a child of their definition context; context-writing library functions write only into their own injected context; the collection overload of the member operator answers every element through the member-operator delegate; a named unpack makes no positional binding; get_delegate, evaluated abstractly on 60 definition/call situations, creates one child context per invocation and converts every argument in it. Equality with a reference interpreter is NOT decided.',
   note=TRUST + 'decides the named structural clauses, not the values computed.',
   ref='6/C04'),
  'C05': dict(
   tech='resolution-skeleton checks: error-class control dependence on the receiver test, must-pass-through of value_type.check for every argument slot, loop-exit (first layer wins), handler typing, laziness agreement scope; plus the shared sweep / kind-predicate / layer-walk rules',
-  text='Necessary structural clauses of the documented 8-step procedure, NOT its input/output relation: each resolution error class is raised on the right side of the receiver test and at the right stage (unknown iff the collection is empty); in both phases every argument value passes value_type.check and failing it is the only thing that excludes an overload; every slot handed to the payload comes from the checker; the layer loop is left at the first layer with a winner; only ArgumentException excludes an overload; the agreed lazy set spans all layers and is keyed like the evaluation sweep; eager arguments are evaluated in one sweep shared by all candidates; kind predicate; nearest-first layer walk stopping at exclusive layers (also for any subclass that overrides the walk); the specificity comparison pairs keyword parameters by keyword name. Which overload the arity/keyword/default arithmetic of map_args and the specificity comparison select is not decided.',
+  text='Necessary structural clauses of the documented 8-step procedure, NOT its input/output relation: each resolution error class is raised on the right side of the receiver test and at the right stage (unknown iff the collection is empty); in both phases every argument value passes value_type.check and failing it is the only thing that excludes an overload; every slot handed to the payload comes from the checker; the layer loop is left at the first layer with a winner; only ArgumentException excludes an overload; the agreed lazy set spans all layers and is keyed like the evaluation sweep; eager arguments are evaluated in one sweep shared by all candidates; kind predicate; nearest-first layer walk stopping at exclusive layers (also for any subclass that overrides the walk); the specificity comparison pairs keyword parameters by keyword name. In addition call / choose_overload / map_args / get_delegate are evaluated abstractly on 648 + 12 + 60 + 44 call situations (opaque candidates, types, expressions and contexts whose answers the situation fixes) and the outcome and call discipline are compared with the documented rules; this also serves as a second opinion when a structural rule does not apply to a new spelling of the procedure. Which overload the arity/keyword/default arithmetic of map_args and the specificity comparison select is not decided.',
   note=TRUST + 'necessary clauses only; order independence of the winner is decided under C06.',
   ref='7 and Appendix E'),
  'C06': dict(
   tech='order-taint analysis of loops over unordered overload sets on the resolution path',
-  text='Sufficient condition: every loop on the resolution path that iterates an unordered collection carries state only through order-insensitive forms; order-tainted lists are only used order-insensitively; the all-equal idiom on lazy sets is symmetric; registration state is updated by commutative operations only; a merged layer is the union of what its members offer; clone() copies the parameter definitions it later edits. If it passes, resolution cannot depend on enumeration order for any overload family.',
+  text='Sufficient condition: every loop on the resolution path that iterates an unordered collection carries state only through order-insensitive forms; order-tainted lists are only used order-insensitively; the all-equal idiom on lazy sets is symmetric; registration state is updated by commutative operations only; a merged layer is the union of what its members offer; clone() copies the parameter definitions it later edits; the outcome of the abstractly evaluated overload choice is the same for every permutation of every layer (648 situations). If it passes, resolution cannot depend on enumeration order for any overload family.',
   note=TRUST + 'SmartType.check / is_specialization_of are pure functions of their operands.',
   ref='6/C06'),
  'C07': dict(
@@ -64,12 +64,12 @@ P = {
   ref='6/C10'),
  'C11': dict(
   tech='evaluation-site enumeration + control-dependence / at-most-once path analysis of lazy operands',
-  text='Decides: argument evaluation sites sit in one sweep outside candidate loops and are unreachable from matching code; the lazy argument set is keyed by index / call keyword like the sweep; the functions named in the statement declare their operands lazy and call the unselected operand only under the selecting test; per-element callables are not applied from (anything reachable from) comparison methods; positional arguments are swept before keyword arguments; the callable built for a Lambda evaluates on every invocation; the plumbing every collection argument travels through does not read ahead of its consumer. Full trace equality with an order model is not decided.',
+  text='Decides: argument evaluation sites sit in one sweep outside candidate loops and are unreachable from matching code; the lazy argument set is keyed by index / call keyword like the sweep; the functions named in the statement declare their operands lazy and call the unselected operand only under the selecting test; per-element callables are not applied from (anything reachable from) comparison methods; positional arguments are swept before keyword arguments; the callable built for a Lambda evaluates on every invocation; the plumbing every collection argument travels through does not read ahead of its consumer; in every call situation each eager argument is evaluated exactly once, after mapping and before any delegate is requested, positional before keyword, and lazy arguments are not evaluated. Full trace equality with an order model is not decided.',
   note=TRUST + 'necessary clauses.',
   ref='6/C11'),
  'C12': dict(
   tech='declaration-level checks: keyword-name language, declared (AST) vs effective (reflected) registry diff, kind predicate def-use, bounded LALR-table simulation of argument-list shapes with abstractly interpreted actions',
-  text='Necessary conditions at declaration level: every visible parameter has a writable, unique keyword name; the registry recovered from decorators agrees with the effective registry (name, kind, no_kwargs, parameter order, aliases, laziness); runner.call tests is_function / is_method on the right branches; on the generated LALR tables every bounded pattern of value/empty positional slots is accepted and yields one entry per slot; the lazy set is keyed like the sweep; hidden parameters of **kwargs functions are unwritable names; clone() copies parameter definitions; call() forwards kwargs keys verbatim; argument mapping never decides presence of a keyword by comparing a looked-up value with None. Result equality across spellings is not decided.',
+  text='Necessary conditions at declaration level: every visible parameter has a writable, unique keyword name; the registry recovered from decorators agrees with the effective registry (name, kind, no_kwargs, parameter order, aliases, laziness); runner.call tests is_function / is_method on the right branches; on the generated LALR tables every bounded pattern of value/empty positional slots is accepted and yields one entry per slot; the lazy set is keyed like the sweep; hidden parameters of **kwargs functions are unwritable names; clone() copies parameter definitions; call() forwards kwargs keys verbatim; argument mapping never decides presence of a keyword by comparing a looked-up value with None; kind predicate, lazy keys and the mapping of positional / keyword / null-valued keyword arguments are also decided by abstract evaluation of the resolution procedure. Result equality across spellings is not decided.',
   note=TRUST + 'reflection executes import-time and registration code only, never runner.call.',
   ref='6/C12'),
  'C13': dict(
